@@ -2,7 +2,7 @@ import PlinioVerif.Model.Proto
 import PlinioVerif.Model.PIT.Net
 /-! Request syntax of SSA programs shared by the PIT drivers (`Drivers/PITNet.lean`, `Drivers/PITSem.lean`):
    `input c` `conv s cout k bias osz` `dw s k bias osz` `lin s cout bias`
-   `fixed s cout k bias osz lin?` `fixeddw s k bias osz` `chan s` `add a b` `cat a,b,…`
+   `fixed s cout k bias osz lin?` `fixedg s cout k bias osz groups` `fixeddw s k bias osz` `chan s` `add a b` `cat a,b,…`
    `tcat a,b,…` `flat s mult` `reuse s layer lsrc cout k bias osz` `reusedw s layer lsrc k bias osz` `output s` -/
 namespace PlinioVerif.PIT
 open PlinioVerif PlinioVerif.Proto
@@ -19,6 +19,10 @@ def parseOp (toks : List String) : Option Op :=
   | ["dw", s, k, b, o] => do pure (.dw (← s.toNat?) (← attr k b o))
   | ["lin", s, c, b] => do pure (.lin (← s.toNat?) (← c.toNat?) (← attr "1" b "1"))
   | ["fixed", s, c, k, b, o, l] => do pure (.fixed (← s.toNat?) (← c.toNat?) (← attr k b o) (← parseBool? l))
+  | ["fixedg", s, c, k, b, o, g] => do   -- excluded grouped convolution (groups = g > 1, not depthwise)
+      let a ← attr k b o
+      let g ← g.toNat?
+      if g = 0 then none else pure (.fixed (← s.toNat?) (← c.toNat?) { a with g := g } false)
   | ["fixeddw", s, k, b, o] => do pure (.fixedDw (← s.toNat?) (← attr k b o))
   | ["chan", s] => do pure (.chan (← s.toNat?))
   | ["add", a, b] => do pure (.add (← a.toNat?) (← b.toNat?))
